@@ -198,7 +198,8 @@ func ruleC15CheckFirst(c *Ctx, r *R) {
 			}
 			return true, true
 		}
-		pf := &PF{N: 2}
+		ipkg := fn.Pkg
+		pf := &PF{N: 2, InScope: func(f *ssa.Function) bool { return f.Pkg == ipkg && f != fn }}
 		pf.Edge = func(f *ssa.Function, g guard, q int) (StateSet, bool) {
 		b := g.blk
 		_ = b
